@@ -78,14 +78,19 @@ theorem clientAuthPhase_spec {cfg : ClientCfg} {srv : ServerScript} {didAuth met
       · cases h
       · split at h
         · rename_i m ran1 hloop
-          split at h
-          · simp only [Except.ok.injEq, Prod.mk.injEq] at h
-            obtain ⟨rfl, rfl, rfl⟩ := h
-            obtain ⟨hmem, hok, hin, hall, honly⟩ := clientLoop_success _ _ _ _ _ (by simp) hloop
-            have sub : ∀ x, x ∈ cfg.methods.filter (fun m => srv.methods.contains m && (!isTokenMethod m || cfg.tokenCompat)) → x ∈ cfg.methods :=
-              fun x hx => (List.mem_filter.mp hx).1
-            exact .inr ⟨rfl, sub _ hmem, hin, hok, fun x hx => sub _ (hall x hx), honly⟩
-          · cases h
+          -- whichever branch of the key message succeeds, the result is the loop's
+          have hres : didAuth = true ∧ method = m ∧ ran = ran1 := by
+            split at h
+            · simp only [Except.ok.injEq, Prod.mk.injEq] at h; exact ⟨h.1.symm, h.2.1.symm, h.2.2.symm⟩
+            · split at h
+              · simp only [Except.ok.injEq, Prod.mk.injEq] at h; exact ⟨h.1.symm, h.2.1.symm, h.2.2.symm⟩
+              · cases h
+            · cases h
+          obtain ⟨rfl, rfl, rfl⟩ := hres
+          obtain ⟨hmem, hok, hin, hall, honly⟩ := clientLoop_success _ _ _ _ _ (by simp) hloop
+          have sub : ∀ x, x ∈ cfg.methods.filter (fun m => srv.methods.contains m && (!isTokenMethod m || cfg.tokenCompat)) → x ∈ cfg.methods :=
+            fun x hx => (List.mem_filter.mp hx).1
+          exact .inr ⟨rfl, sub _ hmem, hin, hok, fun x hx => sub _ (hall x hx), honly⟩
         · cases h
         · cases h
 
